@@ -144,7 +144,9 @@ class PersistentVector(
         return self._inner[item]
 
     def __hash__(self):
-        return hash(self._inner)
+        # Vectors are equal to lists, seqs and queues with the same elements, all of which
+        # hash as the tuple of their elements; the pvector's own (native) hash differs.
+        return hash(tuple(self._inner))
 
     def __iter__(self):
         yield from self._inner
